@@ -96,6 +96,48 @@ theorem C09_date_verbatim (removeEmpty : Bool) (h : Header) (body : List Nat) (h
     applyCmd removeEmpty h "date" body = .ok (some { h with date := strOf body }) := by
   simp [applyCmd, hd]
 
+/-- **`[msb:lsb]` is read back as declared** — for every base name ending in a non-space character `c`, any number of spaces
+before the bracket and after it, negative bounds included (`numTxt` = optional `-` + decimal digits, `sval` its value): the
+variable is named by the text before the range and the index is `VarIndex::new(msb, lsb)`, which returns the declared
+bounds by `C09_index_roundtrip` -/
+theorem C09_range_parse (pre : List Nat) (c : Nat) (sp1 sp2 : List Nat) (n1 n2 : Bool) (d1 d2 : List Nat)
+    (hc : c ≠ 32) (hs1 : isSpaces sp1) (hs2 : isSpaces sp2) (hd1 : isDigits d1) (hd2 : isDigits d2) :
+    extractSuffixIndex (pre ++ [c] ++ sp1 ++ [91] ++ numTxt n1 d1 ++ [58] ++ numTxt n2 d2 ++ [93] ++ sp2) =
+      (pre ++ [c], some (mkIndex (sval n1 d1) (sval n2 d2))) := by
+  rw [extractSuffixIndex_eq]
+  generalize hv : pre ++ [c] ++ sp1 ++ [91] ++ numTxt n1 d1 ++ [58] ++ numTxt n2 d2 ++ [93] ++ sp2 = value
+  have hid : idxRev value = idxRev (pre ++ [c] ++ sp1 ++ [91] ++ numTxt n1 d1 ++ [58] ++ numTxt n2 d2 ++ [93] ++ sp2) := by rw [hv]
+  rw [hid, go_spaces' value _ _ sp2 hs2, idxRev_snoc]
+  simp only [extractGo, show ¬ (93 : Nat) = 32 by decide, ↓reduceIte]
+  rw [go_num_lsb value _ _ n2 d2 hd2, idxRev_snoc]
+  simp only [extractGo, show ¬ (58 : Nat) = 32 by decide, show ¬ (48 ≤ 58 ∧ 58 ≤ 57) by decide, show ¬ (58 : Nat) = 45 by decide, ↓reduceIte]
+  rw [go_num_msb value _ _ _ n1 d1 hd1, idxRev_snoc]
+  simp only [extractGo, show ¬ (91 : Nat) = 32 by decide, show ¬ (48 ≤ 91 ∧ 91 ≤ 57) by decide, show ¬ (91 : Nat) = 45 by decide, ↓reduceIte]
+  rw [go_spaces' value _ _ sp1 hs1, idxRev_snoc]
+  simp only [extractGo, hc, ↓reduceIte]
+  rw [← hv]; simp [List.take_append]
+  exact List.take_of_length_le (by omega)
+
+/-- `[i]` likewise: the one-bit range `i:i` -/
+theorem C09_single_parse (pre : List Nat) (c : Nat) (sp1 sp2 : List Nat) (n : Bool) (d : List Nat)
+    (hc : c ≠ 32) (hs1 : isSpaces sp1) (hs2 : isSpaces sp2) (hd : isDigits d) :
+    extractSuffixIndex (pre ++ [c] ++ sp1 ++ [91] ++ numTxt n d ++ [93] ++ sp2) =
+      (pre ++ [c], some (mkIndex (sval n d) (sval n d))) := by
+  rw [extractSuffixIndex_eq]
+  generalize hv : pre ++ [c] ++ sp1 ++ [91] ++ numTxt n d ++ [93] ++ sp2 = value
+  have hid : idxRev value = idxRev (pre ++ [c] ++ sp1 ++ [91] ++ numTxt n d ++ [93] ++ sp2) := by rw [hv]
+  rw [hid, go_spaces' value _ _ sp2 hs2, idxRev_snoc]
+  simp only [extractGo, show ¬ (93 : Nat) = 32 by decide, ↓reduceIte]
+  rw [go_num_lsb value _ _ n d hd, idxRev_snoc]
+  simp only [extractGo, show ¬ (91 : Nat) = 32 by decide, show ¬ (48 ≤ 91 ∧ 91 ≤ 57) by decide, show ¬ (91 : Nat) = 45 by decide,
+    show ¬ (91 : Nat) = 58 by decide, ↓reduceIte]
+  rw [go_spaces' value _ _ sp1 hs1, idxRev_snoc]
+  simp only [extractGo, hc, ↓reduceIte]
+  rw [← hv]; simp [List.take_append]
+  exact List.take_of_length_le (by omega)
+
+example : decVal [49, 50, 51] = 123 ∧ sval true [55] = -7 ∧ numTxt true [55] = [45, 55] := by decide
+
 /-- non-vacuity: `[7:0]`, `[-2]`, a space before the range, two groups -/
 example : extractSuffixIndex (bytesOfStr "data[7:0]") = (bytesOfStr "data", some { msb := 7, lsb := 0 }) := by decide
 example : extractSuffixIndex (bytesOfStr "x [-2]") = (bytesOfStr "x", some { msb := -2, lsb := -2 }) := by decide
